@@ -153,6 +153,8 @@ type c03Len struct {
 	cur         Loc
 	ctxOf       func(n ast.Node) string
 	NIndex      int
+	entry       *c03St                             // facts about the parameters established at every call site (nil: none)
+	onCall      func(call *ast.CallExpr, st c03St) // record pass: every call expression with the state in force
 	NWriters    int
 }
 
@@ -488,6 +490,17 @@ func (a *c03Len) kill(st c03St, lhs ast.Expr) {
 
 // lenOperand: e is len(<path>) -> the path expression.
 func (a *c03Len) lenOperand(e ast.Expr) (ast.Expr, bool) {
+	if d := a.singleDef(e); d != nil {
+		// n := len(p) … n ⋈ k : same as len(p) ⋈ k as long as p is never assigned in this function
+		if p, ok := a.lenOperand(d); ok {
+			if _, isIdent := unparen(d).(*ast.Ident); !isIdent {
+				if key, ok := a.pathKey(p); ok && !a.bodyAssigns(a.body, key) {
+					return p, true
+				}
+			}
+		}
+		return nil, false
+	}
 	call, ok := unparen(e).(*ast.CallExpr)
 	if !ok || len(call.Args) != 1 {
 		return nil, false
@@ -825,6 +838,10 @@ func (a *c03Len) visit(n ast.Node, st c03St) {
 				a.visit(t.Y, a.refine(st, t.X, t.Op == token.LAND))
 				return false
 			}
+		case *ast.CallExpr:
+			if a.record && a.onCall != nil {
+				a.onCall(t, st)
+			}
 		case *ast.IndexExpr:
 			if tv, ok := a.info.Types[t.X]; ok && tv.IsType() {
 				return false
@@ -980,6 +997,13 @@ func (a *c03Len) indexOb(st c03St, e *ast.IndexExpr) {
 		}
 		return
 	}
+	// counted loop: for i := c; i < len(X); i++ { … X[i] … }  (or downwards from len(X)-1 to 0)
+	if pathID != "" {
+		if why := a.countedLoopIndex(e, pathID); why != "" {
+			a.c.ok("C03.a", key, e.Pos(), "%s", why)
+			return
+		}
+	}
 	// dominating linear guards 0 <= i < len(X)
 	if pathID != "" {
 		facts := a.g.FactsAt(a.cur)
@@ -995,6 +1019,105 @@ func (a *c03Len) indexOb(st c03St, e *ast.IndexExpr) {
 		}
 	}
 	a.c.undecided("C03.a", key, e.Pos(), "the index expression %s is not a constant, a range key or a guarded variable the length analysis understands", types.ExprString(e.Index))
+}
+
+// countedLoopIndex: e.Index is i+k (k >= 0 … handled: k == 0) with i the induction variable of an enclosing
+// for statement that keeps 0 <= i < len(X) inside its body.
+func (a *c03Len) countedLoopIndex(e *ast.IndexExpr, pathID string) string {
+	id, ok := unparen(e.Index).(*ast.Ident)
+	if !ok {
+		return ""
+	}
+	iv := a.info.ObjectOf(id)
+	if iv == nil || a.untracked[iv] {
+		return ""
+	}
+	lenID := "len(" + pathID + ")"
+	for cur := a.par[ast.Node(e)]; cur != nil; cur = a.par[cur] {
+		if _, isLit := cur.(*ast.FuncLit); isLit {
+			return ""
+		}
+		fs, ok := cur.(*ast.ForStmt)
+		if !ok || fs.Cond == nil || fs.Init == nil || fs.Post == nil || !(fs.Body.Pos() <= e.Pos() && e.End() <= fs.Body.End()) {
+			continue
+		}
+		init, ok := fs.Init.(*ast.AssignStmt)
+		if !ok || len(init.Lhs) != 1 || len(init.Rhs) != 1 {
+			continue
+		}
+		lid, ok := init.Lhs[0].(*ast.Ident)
+		if !ok || a.info.ObjectOf(lid) != iv {
+			continue
+		}
+		// the body assigns neither i nor X
+		if a.bodyAssigns(fs.Body, termOf(a.info, id).ID) || a.bodyAssigns(fs.Body, pathID) {
+			return ""
+		}
+		step := int64(0)
+		switch p := fs.Post.(type) {
+		case *ast.IncDecStmt:
+			if pid, ok := unparen(p.X).(*ast.Ident); ok && a.info.ObjectOf(pid) == iv {
+				step = 1
+				if p.Tok == token.DEC {
+					step = -1
+				}
+			}
+		case *ast.AssignStmt:
+			if len(p.Lhs) == 1 && len(p.Rhs) == 1 {
+				if pid, ok := unparen(p.Lhs[0]).(*ast.Ident); ok && a.info.ObjectOf(pid) == iv {
+					if v, ok := constInt(a.info, p.Rhs[0]); ok && v > 0 {
+						switch p.Tok {
+						case token.ADD_ASSIGN:
+							step = v
+						case token.SUB_ASSIGN:
+							step = -v
+						}
+					}
+					if b, ok := unparen(p.Rhs[0]).(*ast.BinaryExpr); ok && p.Tok == token.ASSIGN {
+						if xid, ok := unparen(b.X).(*ast.Ident); ok && a.info.ObjectOf(xid) == iv {
+							if v, ok := constInt(a.info, b.Y); ok && v > 0 {
+								if b.Op == token.ADD {
+									step = v
+								} else if b.Op == token.SUB {
+									step = -v
+								}
+							}
+						}
+					}
+				}
+			}
+		}
+		if step == 0 {
+			return ""
+		}
+		atoms := exprAtoms(a.info, fs.Cond, true)
+		it := termOf(a.info, id)
+		lenT := Term{ID: lenID}
+		if step > 0 {
+			// i starts at a constant >= 0, only grows, and the condition gives i < len(X)
+			c0, ok := constInt(a.info, init.Rhs[0])
+			upper := impliesLin(atoms, it, lenT, -1)
+			if !upper && c0 == 0 && step == 1 {
+				// i != len(X) with i counting up from 0 by one
+				for _, at := range atoms {
+					if at.Kind == "ne" && at.K == 0 && ((at.A.ID == it.ID && at.B.ID == lenID) || (at.B.ID == it.ID && at.A.ID == lenID)) {
+						upper = true
+					}
+				}
+			}
+			if ok && c0 >= 0 && upper {
+				return fmt.Sprintf("counted loop: %s starts at %d, only increases, and the loop condition keeps it below len", id.Name, c0)
+			}
+			return ""
+		}
+		// downwards: i starts at len(X)-k (k >= 1), only shrinks, condition gives i >= 0
+		t0, k0 := linForm(a.info, init.Rhs[0])
+		if t0.ID == lenID && k0 <= -1 && (impliesLin(atoms, Term{}, it, 0)) {
+			return fmt.Sprintf("counted loop: %s starts at len%d, only decreases, and the loop condition keeps it >= 0", id.Name, k0)
+		}
+		return ""
+	}
+	return ""
 }
 
 func (a *c03Len) sliceOb(st c03St, e *ast.SliceExpr) {
@@ -1204,6 +1327,9 @@ func (a *c03Len) run() {
 		a.in[b] = c03Bot()
 	}
 	a.in[entry] = c03NewSt()
+	if a.entry != nil && !a.entry.bot {
+		a.in[entry] = a.entry.clone()
+	}
 	visits := map[*cfg.Block]int{}
 	a.record = false
 	for changed, rounds := true, 0; changed && rounds < 200; rounds++ {
